@@ -30,19 +30,20 @@ func init() {
 }
 
 var leanPreds = []string{"<ex:p>", "<ex:q>"}
-var leanGround = []string{"<ex:a>", "<ex:b>", `"v"`}
+var leanGround = []string{"<ex:a>", "<ex:b>", `"v"`, `"m"@en`, `"1"^^<ex:int>`}
 
 func leanDraw(t *simrt.Tape) []*rdf.Statement {
 	nb := 1 + t.Choose(simrt.KWorkload, 5)
 	np := 1 + t.Choose(simrt.KWorkload, 2)
-	ng := t.Choose(simrt.KWorkload, 3)
+	ng := t.Choose(simrt.KWorkload, 4)
+	goff := t.Choose(simrt.KWorkload, len(leanGround)) // which ground terms: IRIs, plain and qualified literals
 	n := 1 + t.Choose(simrt.KWorkload, 9)
 	term := func(subject bool) string {
 		k := t.Choose(simrt.KValue, nb+ng)
 		if k < nb {
 			return fmt.Sprintf("_:b%d", k)
 		}
-		g := leanGround[k-nb]
+		g := leanGround[(k-nb+goff)%len(leanGround)]
 		if subject && strings.HasPrefix(g, `"`) {
 			return leanGround[0]
 		}
